@@ -1,0 +1,9 @@
+//go:build verif
+// +build verif
+
+package partition
+
+// Verification export for property C10 (pipes). Pure addition, tag `verif` only.
+
+// VerifC10WriteEventsQueued returns the number of write events published by Write and not yet taken by GetWriteEvent.
+func (s *Service) VerifC10WriteEventsQueued() int { return len(s.weCh) }
